@@ -90,8 +90,11 @@ theorem mask_encode (rs ms : List Int) (hv : ∀ r ∈ rs, validRune r = true)
   unfold mask
   simp only [runeCount_encode rs hv, runeCount_encode ms hm]
   by_cases h0 : rs.length ≤ start + end_
-  · rw [if_pos (by omega), if_pos h0]
-  · rw [if_neg (by omega), if_neg h0]
+  · rw [if_pos h0]
+    split
+    · rfl
+    · rw [if_pos (by omega)]
+  · rw [if_neg (by omega), if_neg (by omega), if_neg h0]
     have hml : ((rs.length : Int) - start - end_).toNat = rs.length - start - end_ := by omega
     have hmask : (if ms.length = 1 then repeatStr (encode ms) ((rs.length : Int) - start - end_).toNat
         else encode ms) = encode (maskRunes ms (rs.length - start - end_)) := by
